@@ -322,13 +322,16 @@ def run_impl(case):
                     pass
         return obs
     det = NNDVI(k_nn=k, sampling_times=case["sampling_times"], alpha=case["alpha"])
-    det.set_reference(arr(case["ref"], dim))
+    R = arr(case["ref"], dim)
+    det.set_reference(R)
+    R[...] = 12345.678      # the caller overwrites what it handed over: "exactly the given batches" must not depend on it
     steps = []
     for i, rows in enumerate(case["batches"]):
         ref_before = np.array(det.reference_batch, dtype=float)
         X = arr(rows, dim)
         np.random.seed(step_seed(case, i))
         det.update(X)
+        X[...] = 12345.678
         st, tot, sin = lifecycle_obs(det)
         b = build_obs(k, ref_before, arr(rows, dim))
         step = {"ds": st, "total": tot, "since": sin, "ref_before": ref_before.tolist(),
